@@ -39,6 +39,7 @@ type LoopSpec struct {
 	Unroll     int
 	NoMerge    bool // continue from every exit of the loop separately (the code after the loop is executed once per exit path)
 	Uses       []Clause // instances of separately proved lemmas, assumed at the loop head
+	Assumes    []Clause // facts assumed (never asserted) at the loop head; each is listed in the report as an assumption
 }
 
 type Clause struct {
@@ -175,7 +176,7 @@ func parseContractFile(path string) (*ContractFile, error) {
 				cur.Loops[n] = ls
 			}
 			switch m[2] {
-			case "invariant", "decreases", "use":
+			case "invariant", "decreases", "use", "assume":
 				if m[2] == "decreases" && topLevelIndex(m[3], ",") >= 0 {
 					rest := m[3]
 					for {
@@ -207,6 +208,8 @@ func parseContractFile(path string) (*ContractFile, error) {
 					ls.Invariants = append(ls.Invariants, cl)
 				} else if m[2] == "use" {
 					ls.Uses = append(ls.Uses, cl)
+				} else if m[2] == "assume" {
+					ls.Assumes = append(ls.Assumes, cl)
 				} else {
 					ls.Decreases = &cl
 				}
@@ -365,6 +368,9 @@ func rewriteCExpr(s string) (string, error) {
 			parts := strings.SplitN(head, " in ", 2)
 			if len(parts) != 2 {
 				return "", fmt.Errorf("%s without 'in'", q)
+			}
+			if strings.TrimSpace(parts[1]) == "all" { // every 64-bit value (keys of a map)
+				parts[1] = "allkeys_..allkeys_"
 			}
 			rng := strings.SplitN(parts[1], "..", 2)
 			if len(rng) != 2 {
